@@ -296,3 +296,30 @@ def run_one(ctx: Any, seed: int, tier: str, replay: Optional[dict] = None) -> di
         "sim_time": sim_time,
         "samples": samples,
     }
+
+
+def shrink_candidates(rp: dict):
+    import copy
+
+    from vsim.shrink import drop_world_files, tape_candidates
+
+    def fix(r: dict, removed: set) -> bool:
+        sc = r["scenario"]
+        if sc.get("file") in removed:
+            return False
+        return len(r["world"]["meta"]) >= 1
+
+    yield from drop_world_files(rp, fixups=fix)
+    sc = rp["scenario"]
+    for t in tape_candidates(sc.get("tape") or []):
+        r = copy.deepcopy(rp)
+        r["scenario"]["tape"] = t
+        yield "tape", r
+    if sc.get("plan"):
+        r = copy.deepcopy(rp)
+        r["scenario"]["plan"] = []
+        yield "no fault plan", r
+    if sc.get("processes", 1) > 2:
+        r = copy.deepcopy(rp)
+        r["scenario"]["processes"] = 2
+        yield "processes=2", r
